@@ -6,6 +6,7 @@
 //   rbm_modes      ndim transpose tol coo[] B0[] B[]        -> precondition | nmodes close
 //   rbm_degenerate ndim transpose coo[] B0[]                -> precondition | nonfinite | finite   (0/0 in a normalisation)
 //   rbm_ptent      ndim tol naggr id[] coo[] B[] P Bc[]     -> close shape repro ortho
+//   rbm_nsparams   cols B[]                                 -> precondition | cols B[]   (nullspace_params(ptree): rows*cols values copied)
 // B0 = what the caller's vector holds on entry (B.resize keeps it).  execute re-runs the real code and requires the
 // values in the op line to be bitwise the implementation's output.
 // Implementation-side oracles (exact arithmetic on the doubles, independent of the Lean model):
@@ -93,15 +94,19 @@ static void rbm_oracles(Result &r, long ndim, bool tr, const std::vector<Q> &coo
 typedef Cur::Mat Mat;
 static Mat to_mat(const Crs &P) { Mat M; M.n = P.nrows; M.m = P.ncols; M.ptr.assign(P.ptr, P.ptr + P.nrows + 1); M.col.assign(P.col, P.col + P.ptr[P.nrows]); M.val.assign(P.val, P.val + P.ptr[P.nrows]); return M; }
 static bool same_mat(const Mat &a, const Mat &b) { if (a.n != b.n || a.m != b.m || a.ptr != b.ptr || a.col != b.col || a.val.size() != b.val.size()) return false; for (size_t k = 0; k < a.val.size(); ++k) if (!(a.val[k] == b.val[k])) return false; return true; }
-struct NsOut { Mat P; std::vector<Q> Bc; };
-// the near-null space goes in through the property-tree constructor of nullspace_params (cols / rows / B pointer)
-static NsOut ns_run(long bs, long cols, long naggr, const std::vector<ptrdiff_t> &id, std::vector<double> B) {
+struct NsOut { Mat P; std::vector<Q> Bc; bool took = true; };
+// nullspace_params through its property-tree constructor (cols / rows / B pointer), tentative_prolongation.hpp:77-106
+static ac::nullspace_params ns_from_ptree(long cols, size_t rows, std::vector<double> &B) {
     boost::property_tree::ptree p;
-    p.put("cols", (int)cols); p.put("rows", (size_t)id.size()); p.put("B", static_cast<void*>(B.data()));
-    ac::nullspace_params ns(p);
-    if (ns.cols != cols || ns.B != B) throw std::logic_error("nullspace_params(ptree) did not take over cols / B");
+    p.put("cols", (int)cols); p.put("rows", rows); if (!B.empty()) p.put("B", static_cast<void*>(B.data()));
+    return ac::nullspace_params(p);
+}
+static NsOut ns_run(long bs, long cols, long naggr, const std::vector<ptrdiff_t> &id, std::vector<double> B) {
+    ac::nullspace_params ns = ns_from_ptree(cols, id.size(), B);
+    NsOut o; o.took = ns.cols == cols && ns.B == B;
+    if (!o.took) return o;
     auto P = ac::tentative_prolongation<Crs>(id.size(), (size_t)naggr, id, ns, (int)bs);
-    NsOut o; o.P = to_mat(*P); for (double d : ns.B) o.Bc.push_back(Q(d)); return o;
+    o.P = to_mat(*P); for (double d : ns.B) o.Bc.push_back(Q(d)); return o;
 }
 
 // ------------------------------------------------------------------ execute
@@ -142,6 +147,7 @@ static Result execute(const Toks &t) {
         if (o.precondition || !same_bits(o.B, B)) r.fail("B in the op line is not the output of rigid_body_modes");
         rbm_oracles(r, ndim, false, coo, false, o);
         NsOut ns = ns_run(ndim, cols, naggr, id, as_doubles(B));
+        if (!ns.took) r.fail("nullspace_params(ptree) did not take over cols / B");
         bool rep = same_mat(ns.P, P) && ns.Bc.size() == Bc.size(); for (size_t k = 0; rep && k < Bc.size(); ++k) if (!(ns.Bc[k] == Bc[k])) rep = false;
         if (!rep) r.fail("P / B_coarse in the op line are not the implementation's output");
         bool shape = P.n == n, repro = true, ortho = true;
@@ -158,6 +164,16 @@ static Result execute(const Toks &t) {
         r.out = (Line() << true << shape << repro << ortho).get();
         if (!shape) r.fail("rigid body modes: P_tent has the wrong shape"); if (!repro) r.fail("rigid body modes: P_tent * B_coarse != B on aggregated rows (beyond tol)"); if (!ortho) r.fail("rigid body modes: columns of P_tent not orthonormal (beyond tol)");
         r.nontrivial = P.col.size() > 0; r.tag("rbm_ptent_" + std::to_string(ndim) + "d");
+    } else if (op == "rbm_nsparams") {
+        long cols = c.nat(); auto B = c.vec(); c.expect_end();
+        if (cols < 0 || (cols > 0 && B.size() % (size_t)cols)) throw bad_input("shape");
+        std::vector<double> Bd = as_doubles(B);
+        try {
+            ac::nullspace_params ns = ns_from_ptree(cols, cols > 0 ? B.size() / cols : B.size(), Bd);
+            r.out = (Line() << (long)ns.cols << as_rats(ns.B)).get();
+            if (ns.cols != cols || ns.B != Bd) r.fail("nullspace_params(ptree) did not take over cols / B (rows * cols values)");
+            r.nontrivial = !B.empty(); r.tag("nsparams");
+        } catch (const std::runtime_error &) { r.out = "precondition"; r.tag("precondition"); r.nontrivial = true; }
     } else {
         r.out = "bad-op";
     }
@@ -210,12 +226,19 @@ static void generate(Rng &rng, const Opts &o, std::vector<std::string> &lines) {
             auto Ac = A.crs(); ac::pointwise_aggregates ag(*Ac, ap, (unsigned)cols);
             RbmOut rb = run_rbm(ndim, false, as_doubles(coo), {});
             if (rb.precondition || !all_finite(rb.B)) continue;
+            { Line l; l << "rbm_nsparams" << cols << as_rats(rb.B); lines.push_back(l.get()); }
             NsOut out = ns_run(ndim, cols, (long)ag.count, ag.id, rb.B);
+            if (!out.took) continue;
             Line l; l << "rbm_ptent" << ndim << Q::frac(1, 1L << 26) << (long)ag.count; l << (size_t)ag.id.size(); for (auto v : ag.id) l << (long)v;
             l << coo << as_rats(rb.B) << out.P << out.Bc; lines.push_back(l.get());
         } catch (const amgcl::error::empty_level &) {} catch (const std::runtime_error &) {}
     }
+    lines.push_back("rbm_nsparams 0 0");            // nothing set: cols = 0, B empty
+    lines.push_back("rbm_nsparams 0 2 1 2");        // B is set, but cols is not
+    lines.push_back("rbm_nsparams 2 0");            // cols > 0, but B is empty
+    lines.push_back("rbm_nsparams 2 4 1 2 3 1/2");
     // malformed stream: both sides must answer bad-input
+    lines.push_back("rbm_nsparams 2 3 1 2 3");                        // B.size() not divisible by cols
     lines.push_back("rbm_modes 2 2 1/1024 2 0 0 0 0");                // flag not 0/1
     lines.push_back("rbm_modes 2 0 1/1024 4 0 0 1");                  // truncated vector
     lines.push_back("rbm_degenerate 3 0 3 0 0 0 0 7");                // trailing token
